@@ -53,6 +53,9 @@ pub struct Send {
     /// the message is sent by a third module (which owns no gate of the chain) through a reference to the chain's end gate
     #[serde(default)]
     pub proxy: bool,
+    /// the receiving module sends the very message object it received back over the chain
+    #[serde(default)]
+    pub echo: bool,
 }
 
 #[derive(Debug, Clone, Serialize, Deserialize, PartialEq)]
@@ -89,6 +92,8 @@ thread_local! {
     static ARRIVALS: RefCell<Vec<Arrival>> = const { RefCell::new(Vec::new()) };
     /// the two end gates of the chain, for sends made by the proxy module
     static END_GATES: RefCell<Vec<GateRef>> = const { RefCell::new(Vec::new()) };
+    /// sequence numbers to be echoed, and those that were echoed already
+    static ECHO: RefCell<(Vec<u64>, Vec<u64>)> = const { RefCell::new((Vec::new(), Vec::new())) };
 }
 
 struct Node {
@@ -127,6 +132,7 @@ impl Module for Node {
             return;
         }
         if let Some(p) = msg.try_content::<Pay>() {
+            let seq = p.seq;
             let h = msg.header();
             let last_gate = h.last_gate.as_ref().map(|g| (module_index(g.owner().path().as_str()), g.name().to_string(), g.pos()));
             ARRIVALS.with(|a| {
@@ -139,6 +145,21 @@ impl Module for Node {
                     last_gate,
                 });
             });
+            let back = ECHO.with(|e| {
+                let mut e = e.borrow_mut();
+                if e.0.contains(&seq) && !e.1.contains(&seq) {
+                    e.1.push(seq);
+                    true
+                } else {
+                    false
+                }
+            });
+            if back {
+                // the same message object travels back from the gate it arrived on
+                if let Some(g) = msg.header().last_gate.clone() {
+                    send(msg, g);
+                }
+            }
         }
     }
 }
@@ -170,6 +191,7 @@ pub struct Obs {
     pub repeats: u64,
     pub third_peer_rejections: u64,
     pub proxy_sends: u64,
+    pub echoes: u64,
 }
 
 fn gate_id(case: &Case, g: &GateRef) -> Option<usize> {
@@ -237,6 +259,7 @@ pub fn execute(case: &Case) -> (Vec<Finding>, Obs) {
         // the proxy's id (or a value no module has, if there is none)
         ids.push(sim.get(&"px".into()).map_or(u16::MAX, |m| m.id().0));
         END_GATES.with(|g| *g.borrow_mut() = vec![gates[0].clone(), gates[k].clone()]);
+        ECHO.with(|e| *e.borrow_mut() = (case.sends.iter().filter(|s| s.echo).map(|s| s.seq).collect(), Vec::new()));
 
         // connect calls in the generated order
         let mut connected = vec![false; k];
@@ -369,12 +392,13 @@ pub fn execute(case: &Case) -> (Vec<Finding>, Obs) {
     // deliveries against the declared chain
     let arrivals = ARRIVALS.with(|a| std::mem::take(&mut *a.borrow_mut()));
     END_GATES.with(|g| g.borrow_mut().clear());
+    ECHO.with(|e| *e.borrow_mut() = (Vec::new(), Vec::new()));
     for s in &case.sends {
         let (src, dst) = if s.reverse { (k, 0) } else { (0, k) };
         let want_module = case.gates[dst].owner;
         let want_t = s.time_ns + s.delay_ns + path_delay(case, s.body);
         let got: Vec<&Arrival> = arrivals.iter().filter(|a| a.seq == s.seq).collect();
-        if got.len() != 1 {
+        if got.len() != 1 + usize::from(s.echo) {
             f.push((
                 "delivery-count",
                 format!("message {} sent on gate {src} at {} ns was delivered {} times (to modules {:?})", s.seq, s.time_ns + s.delay_ns, got.len(), got.iter().map(|a| a.module).collect::<Vec<_>>()),
@@ -416,9 +440,37 @@ pub fn execute(case: &Case) -> (Vec<Finding>, Obs) {
             f.push(("header-last-gate", format!("message {}: header.last_gate = {:?}, the final gate is {:?}", s.seq, a.last_gate, (d.owner, &d.name, d.pos))));
         }
         obs.deliveries += 1;
+        if s.echo {
+            // the way back: same chain, same message object, sent by the far end's owner
+            let b = got[1];
+            obs.echoes += 1;
+            let origin = case.gates[src].owner;
+            if b.module != origin {
+                f.push(("wrong-receiver", format!("message {} echoed from gate {dst} was handled by module m{}, the chain ends at m{origin}", s.seq, b.module)));
+                continue;
+            }
+            let want_back = a.t + path_delay(case, s.body);
+            if b.t != want_back {
+                f.push(("arrival-time", format!("message {} echoed at {} ns: expected back at {want_back} ns, observed {} ns", s.seq, a.t, b.t)));
+            }
+            if b.sender_id != ids[want_module] {
+                f.push(("header-sender", format!("echo of message {}: header.sender_module_id = {}, the echoing module has id {}", s.seq, b.sender_id, ids[want_module])));
+            }
+            if b.receiver_id != ids[origin] {
+                f.push((
+                    "header-receiver",
+                    format!("echo of message {} (the message object that was delivered before): header.receiver_module_id = {}, the receiving module has id {}", s.seq, b.receiver_id, ids[origin]),
+                ));
+            }
+            let o = &case.gates[src];
+            if b.last_gate != Some((o.owner, o.name.clone(), o.pos)) {
+                f.push(("header-last-gate", format!("echo of message {}: header.last_gate = {:?}, the final gate is {:?}", s.seq, b.last_gate, (o.owner, &o.name, o.pos))));
+            }
+        }
     }
-    if arrivals.len() != case.sends.len() && f.is_empty() {
-        f.push(("phantom", format!("{} arrivals for {} sends", arrivals.len(), case.sends.len())));
+    let expected_arrivals = case.sends.len() + case.sends.iter().filter(|s| s.echo).count();
+    if arrivals.len() != expected_arrivals && f.is_empty() {
+        f.push(("phantom", format!("{} arrivals for {} sends ({} expected)", arrivals.len(), case.sends.len(), expected_arrivals)));
     }
     (f, obs)
 }
@@ -509,9 +561,11 @@ pub fn gen_case(rng: &mut Rng, k: usize, order: Option<(Vec<usize>, u32)>) -> Ca
     for seq in 0..n_sends as u64 {
         let body = *rng.pick(&[0usize, 1, 448, 1436]);
         let delay_ns = if rng.chance(1, 3) { 1 + rng.below(2_000_000_000) } else { 0 };
-        sends.push(Send { time_ns: t, reverse: rng.chance(1, 2), body, delay_ns, seq, proxy: rng.chance(1, 5) });
-        // uncontended: the next message is sent after this one has arrived
-        let gap: u64 = hops.iter().filter_map(|h| h.channel).map(|(b, l)| l + tx_ns(1500, b)).sum::<u64>() + delay_ns + 1 + rng.below(1000);
+        let echo = rng.chance(1, 4);
+        sends.push(Send { time_ns: t, reverse: rng.chance(1, 2), body, delay_ns, seq, proxy: rng.chance(1, 5), echo });
+        // uncontended: the next message is sent after this one has arrived (and come back)
+        let one_way: u64 = hops.iter().filter_map(|h| h.channel).map(|(b, l)| l + tx_ns(1500, b)).sum::<u64>();
+        let gap: u64 = one_way * (1 + u64::from(echo)) + delay_ns + 1 + rng.below(1000);
         t += gap;
     }
     Case { modules, gates, hops, calls, sends }
@@ -530,7 +584,7 @@ pub fn case_json(case: &Case) -> Value {
 pub fn cmd(args: &Args) -> Report {
     let mut rep = Report::new("C08");
     let mut rng = Rng::new(args.stream_seed("c08"));
-    let cases = args.cases(60_000, 1_200_000);
+    let cases = args.cases(720_000, 9_600_000);
     // enumerated part: every permutation of the connect calls for k <= 5, orientations exhaustive for k <= 4
     let mut enumerated: Vec<(usize, Vec<usize>, u32)> = Vec::new();
     if args.budget.is_none() {
@@ -574,6 +628,7 @@ pub fn cmd(args: &Args) -> Report {
         rep.count("repeated_connect_calls", obs.repeats);
         rep.count("third_peer_rejections", obs.third_peer_rejections);
         rep.count("sends_by_a_third_module_through_a_gate_reference", obs.proxy_sends);
+        rep.count("messages_echoed_back_over_the_chain", obs.echoes);
         rep.count("hops_total", case.hops.len() as u64);
         rep.max("max_hops", case.hops.len() as u64);
         // longest run of hops without a channel (all of them are traversed within one event)
